@@ -4,7 +4,10 @@
     - the resolution loop terminates within the fuel [sem_build] gives it (1 + number of unresolved
       items rounds) for every schedule that preserves the number of items -- in particular every
       schedule the hook can install, hence every hash order ([C12_loop_terminates]);
-    - the [unwrap]s of the alignment check are unreachable ([C12_alignment_no_panic]);
+    - the [unwrap]s of the alignment check are unreachable ([C12_alignment_no_panic]); they are the only
+      primitive panic site of the front half, so [C12_front_half_never_panics]: for EVERY input, pointer
+      width and schedule, [pyxis_resolve] (registration, loop, finish) does not end in a panic, and
+      [C12_front_half_total]: it ends in accepted / error value / no-progress error, nothing else;
     - checked arithmetic: sizes, offsets and the alignment lcm go through [checked_mul] /
       [checked_add] and yield "defer" / "error" on overflow, never a wrapped value
       ([C12_no_wraparound]).
@@ -14,7 +17,7 @@
     cyclic types, API misuse) runs through the real pyxis in a bounded process; any panic, hang or
     crash is a violation unless it is a listed finding (F6f: raw identifiers). *)
 From Coq Require Import List NArith ZArith Bool String Lia.
-From PyxisModel Require Import Base Grammar SemTypes Registry Sem SemLemmas TotalityLemmas.
+From PyxisModel Require Import Base Grammar SemTypes Registry Sem SemLemmas TotalityLemmas NoPanic.
 Import ListNotations.
 
 Theorem C12_loop_terminates : forall order st,
@@ -49,3 +52,17 @@ Proof.
   - destruct (a * b <=? usize_max)%N eqn:E; inversion H; subst. split; [reflexivity | now apply N.leb_le].
 Qed.
 Print Assumptions C12_no_wraparound.
+
+(** ** the front half never panics, for every input and schedule *)
+Theorem C12_front_half_never_panics : forall order ptr mods m, pyxis_resolve order ptr mods <> BPanic m.
+Proof. exact pyxis_resolve_no_panic. Qed.
+Print Assumptions C12_front_half_never_panics.
+
+Theorem C12_front_half_total : forall order ptr mods,
+  (forall l, List.length (order l) = List.length l) ->
+  match pyxis_resolve order ptr mods with
+  | BOk _ | BErr _ | BNoProgress _ => True
+  | BPanic _ | BFuel => False
+  end.
+Proof. exact pyxis_resolve_total. Qed.
+Print Assumptions C12_front_half_total.
